@@ -122,6 +122,7 @@ class RunTaskExecutable(Operation):
             stderr_output.maybe_tee(process.stderr, sys.stderr, ctx)
 
             handle = OperationExecutionHandle.from_async_process(pid=process.pid)
+            handle.process = process
             handle.stdout = stdout_output
             handle.stderr = stderr_output
             return handle
